@@ -691,6 +691,9 @@ pub fn run(tier: Tier, replay_path: Option<&str>) {
             ("sx1262", true, 2, 12),
             ("sx1276", true, 2, 12),
         ]
+        .into_iter()
+        .chain(if crate::ctx::deep() { vec![("sx1262", false, 3, 8), ("sx1276", false, 3, 8), ("sx1262", true, 3, 10), ("sx1276", true, 3, 10)] } else { vec![] })
+        .collect()
     } else {
         vec![("sx1262", false, 0, 20), ("sx1276", false, 0, 20), ("sx1262", false, 1, 5), ("sx1276", false, 1, 5), ("sx1262", true, 1, 10), ("sx1276", true, 1, 10)]
     };
